@@ -87,6 +87,21 @@ func (in *objIndex) UnmarshalJSON(data []byte) error {
 	in.ObjectIds = tmp.ObjectIds
 	in.uuids = make(map[string]uint64)
 
+	// maps may be missing (or null) in JSON
+	if in.Fields == nil {
+		in.Fields = make(map[string]*fieldIndex)
+	}
+
+	if in.ObjectIds == nil {
+		in.ObjectIds = make(map[uint64]string)
+	}
+
+	for fn, fi := range in.Fields {
+		if fi == nil {
+			return fmt.Errorf("%w, null index for field %s", ErrCasting, fn)
+		}
+	}
+
 	// we search next index to use for object
 	for i, uuid := range in.ObjectIds {
 		if i > in.i {
